@@ -353,14 +353,23 @@ func runC36(tr *sim.Trace, p *sim.Plan) {
 		}
 		sort.Ints(out.set)
 		out.want = t.dca(out.set)
+		// "present locally": delivered, and not dropped again by the node itself (finalizeBlock deletes the dead
+		// blocks of the round ten blocks behind a finalized block)
+		has := func(x int) bool {
+			if !in.known[x] {
+				return false
+			}
+			b, _ := in.c.GetBlock(ctx, t.b[x].hash)
+			return b != nil
+		}
 		for _, b := range out.set {
 			for x := b; x >= 0 && x != out.want; x = t.b[x].parent {
-				if !in.known[x] {
+				if !has(x) {
 					out.complete = false
 				}
 			}
 		}
-		if out.want >= 0 && !in.known[out.want] {
+		if out.want >= 0 && !has(out.want) {
 			out.complete = false
 		}
 		return out
